@@ -184,7 +184,7 @@ def l2_chunk(args):
 
 # ------------------------------------------------------------------------------------------------ L3
 INT_TAG = {"A1": 7, "gB": 12, "gC": 3}      # integer-typed BAM tag values (XI:i:7), group names are their decimal strings
-UTF_TAG = {"A1": "\u03b11", "gB": "\u03b2-cell", "gC": "\u7d30\u80de"}      # non-ASCII tag values (XU:Z:...)
+UTF_TAG = {"A1": "\u03b11", "gB": "\u03b2-cell-count", "gC": "\u7d30\u80de"}      # non-ASCII tag values (XU:Z:...), one containing a column keyword
 
 
 def l3_world(mode, third_locus=False):
@@ -365,6 +365,12 @@ def l3_case(args):
                                 mat[(ft, gname)] = mat.get((ft, gname), 0.0) + float(x)
                 if mat != exp:
                     errs.append(("matrix-wrong", "%s matrix %s expected %s" % (level, sorted(mat.items()), sorted(exp.items()))))
+                # the TPM rendering of the grouped table has the same group columns
+                ptpm = run.find(out, "OUT", ".%s_grouped_tpm.tsv" % level)
+                if ptpm:
+                    th = open(ptpm).readline().rstrip("\n").lstrip("#").split("\t")
+                    if th[1:] != gs:
+                        errs.append(("tpm-columns", "%s grouped TPM table has columns %s, the counts table %s" % (level, th[1:], gs)))
                 sums = {}
                 for (ft, g), v in mat.items():
                     sums[ft] = sums.get(ft, 0.0) + v
